@@ -27,6 +27,7 @@ type Program struct {
 	Pkgs    []*packages.Package // packages of the root module, sorted by path
 	ByPath  map[string]*packages.Package
 	Tests   bool
+	Overlay map[string][]byte
 
 	ssaProg *ssa.Program
 	ssaPkgs map[*types.Package]*ssa.Package
@@ -100,7 +101,7 @@ func Load(lc LoadConfig) (*Program, error) {
 		return nil, fmt.Errorf("no packages loaded from %s", lc.Dir)
 	}
 	sort.Slice(pkgs, func(i, j int) bool { return pkgs[i].ID < pkgs[j].ID })
-	p := &Program{RepoDir: lc.RepoDir, Fset: fset, Pkgs: pkgs, ByPath: map[string]*packages.Package{}, Tests: lc.Tests}
+	p := &Program{RepoDir: lc.RepoDir, Fset: fset, Pkgs: pkgs, ByPath: map[string]*packages.Package{}, Tests: lc.Tests, Overlay: lc.Overlay}
 	for _, pk := range pkgs {
 		// with Tests=true the test variant "p [p.test]" supersedes plain p.
 		if old, ok := p.ByPath[pk.PkgPath]; !ok || len(pk.Syntax) > len(old.Syntax) {
@@ -243,4 +244,13 @@ func IsGenerated(f *ast.File) bool {
 		}
 	}
 	return false
+}
+
+// ReadFile returns the content of a source file as the analysis sees it
+// (overlay first, then disk).
+func (p *Program) ReadFile(name string) ([]byte, error) {
+	if b, ok := p.Overlay[name]; ok {
+		return b, nil
+	}
+	return os.ReadFile(name)
 }
